@@ -4,6 +4,7 @@ import Driver.BoardDriver
 import Driver.AlgDriver
 import Driver.NodeDriver
 import Driver.AirDriver
+import Driver.ReinitDriver
 
 open Driver
 
@@ -54,12 +55,20 @@ partial def loopAir (h : IO.FS.Stream) (out : IO.FS.Stream) (m : AirM) : IO Unit
   out.putStrLn o
   loopAir h out m'
 
+partial def loopReinit (h : IO.FS.Stream) (out : IO.FS.Stream) : IO Unit := do
+  let line ← h.getLine
+  if line.isEmpty then return ()
+  let toks := (line.trimAscii.toString.splitOn " ").filter (· != "")
+  out.putStrLn (reinitStep toks)
+  loopReinit h out
+
 def main (args : List String) : IO UInt32 := do
   let stdin ← IO.getStdin
   let stdout ← IO.getStdout
   match args with
   | ["fsm"] => loopFsm stdin stdout {}; pure 0
   | ["node"] => loopNode stdin stdout { self := "" }; pure 0
+  | ["reinit"] => loopReinit stdin stdout; pure 0
   | ["air"] => loopAir stdin stdout Dc4bcVerif.Model.Air.fresh; pure 0
   | ["alg"] => loopAlg stdin stdout {}; pure 0
   | ["board"] => loopBoard stdin stdout []; pure 0
